@@ -346,6 +346,11 @@ int32_t tls13DeriveHandshakeTrafficSecrets(ssl_t *ssl)
     {
         /* psk_ke uses a dummy all-zero shared secret. */
         sharedSecret = psMalloc(ssl->hsPool, secretLen);
+        if (sharedSecret == NULL)
+        {
+            ssl->err = SSL_ALERT_INTERNAL_ERROR;
+            return PS_MEM_FAIL;
+        }
         Memset(sharedSecret, 0, secretLen);
         sharedSecretLen = secretLen;
     }
